@@ -1,4 +1,6 @@
 import Martian.Format
+import Martian.FormatExp
+import Martian.FormatCall
 import Driver.Util
 
 /-! Line-protocol handler for property C09 (formatter core). -/
@@ -11,6 +13,105 @@ def parseEdges (s : String) : Option (List (Nat × Nat)) :=
     match e.splitOn "-" with
     | [a, b] => do let a ← a.toNat?; let b ← b.toNat?; pure (a, b)
     | _ => none
+
+/-! ### value expressions: a flat prefix encoding, one token per space-separated word
+
+`n` null, `N` nil array, `t`/`f`, `i<decimal>`, `F<hex>` float text, `s<hex>`
+string, `[ e … ]`, `{ <hexkey> e … }` map, `< <hexkey> e … >` struct,
+`r<0|1>:<hexid>:<hex>,<hex>…` reference (`.` = no output path). -/
+section
+open Martian.FormatExp
+
+mutual
+partial def encExp : Exp → List String
+  | .null => ["n"]
+  | .nilArr => ["N"]
+  | .bool b => [if b then "t" else "f"]
+  | .int i => ["i" ++ toString i]
+  | .float t => ["F" ++ hexOfBytes t]
+  | .str s => ["s" ++ hexOfBytes s]
+  | .arr xs => "[" :: (xs.flatMap encExp ++ ["]"])
+  | .map kvs => "{" :: (kvs.flatMap (fun kv => hexOfBytes kv.1 :: encExp kv.2) ++ ["}"])
+  | .struct kvs => "<" :: (kvs.flatMap (fun kv => hexOfBytes kv.1 :: encExp kv.2) ++ [">"])
+  | .ref self id out => ["r" ++ (if self then "1" else "0") ++ ":" ++ hexOfBytes id ++ ":" ++ hexList out]
+end
+
+def encode (e : Exp) : String := " ".intercalate (encExp e)
+
+mutual
+partial def decExp : List String → Option (Exp × List String)
+  | [] => none
+  | w :: r =>
+    if w == "n" then some (.null, r)
+    else if w == "N" then some (.nilArr, r)
+    else if w == "t" then some (.bool true, r)
+    else if w == "f" then some (.bool false, r)
+    else if w == "[" then (decList r).map fun (xs, r') => (.arr xs, r')
+    else if w == "{" then (decKVs "}" r).map fun (xs, r') => (.map xs, r')
+    else if w == "<" then (decKVs ">" r).map fun (xs, r') => (.struct xs, r')
+    else match w.toList with
+      | 'i' :: d => (String.ofList d).toInt?.map fun i => (.int i, r)
+      | 'F' :: d => (bytesOfHex (String.ofList d)).map fun b => (.float b, r)
+      | 's' :: d => (bytesOfHex (String.ofList d)).map fun b => (.str b, r)
+      | 'r' :: k :: ':' :: d =>
+        match (String.ofList d).splitOn ":" with
+        | [id, out] => do
+          let id ← bytesOfHex id
+          let out ← parseHexList out
+          pure (.ref (k == '1') id out, r)
+        | _ => none
+      | _ => none
+partial def decList : List String → Option (List Exp × List String)
+  | "]" :: r => some ([], r)
+  | ws => do
+    let (e, r) ← decExp ws
+    let (es, r') ← decList r
+    pure (e :: es, r')
+partial def decKVs (close : String) : List String → Option (List (List UInt8 × Exp) × List String)
+  | [] => none
+  | k :: ws =>
+    if k == close then some ([], ws) else do
+    let key ← bytesOfHex k
+    let (e, r) ← decExp ws
+    let (es, r') ← decKVs close r
+    pure ((key, e) :: es, r')
+end
+
+def decode (s : String) : Option Exp :=
+  match decExp (s.splitOn " ") with
+  | some (e, []) => some e
+  | _ => none
+end
+
+/-! ### call statements: `<hex decId> <hex id> <n>` then per binding `<hex id> <0|1>` and the
+expression words, all space separated -/
+section
+open Martian.FormatExp Martian.FormatCall
+
+def encCall (c : Call) : String :=
+  " ".intercalate (hexOfBytes c.decId :: hexOfBytes c.id :: toString c.binds.length ::
+    c.binds.flatMap fun b => hexOfBytes b.id :: (if b.split then "1" else "0") :: encExp b.exp)
+
+def decBinds : Nat → List String → Option (List Bind × List String)
+  | 0, ws => some ([], ws)
+  | n + 1, id :: sp :: ws => do
+    let id ← bytesOfHex id
+    let (e, r) ← decExp ws
+    let (bs, r') ← decBinds n r
+    pure (⟨id, sp == "1", e⟩ :: bs, r')
+  | _ + 1, _ => none
+
+def decCall (s : String) : Option Call :=
+  match s.splitOn " " with
+  | d :: i :: n :: ws => do
+    let d ← bytesOfHex d
+    let i ← bytesOfHex i
+    let n ← n.toNat?
+    match decBinds n ws with
+    | some (bs, []) => pure ⟨d, i, bs⟩
+    | _ => none
+  | _ => none
+end
 
 def handle (op : String) (args : List String) : Option String :=
   match op, args with
@@ -28,7 +129,9 @@ def handle (op : String) (args : List String) : Option String :=
     let es ← parseEdges edges
     pure (" ".intercalate ((topoSort n es).map toString))
   | "closure", [n, edges] => do
-    -- the hypotheses of topoSort_respects_deps for this graph + the closed relation itself
+    -- the hypothesis of topoSort_respects_deps (cycle) for this graph, transitivity (a theorem now:
+    -- closedDeps_transitive; still evaluated and reported, the reply format is unchanged) + the
+    -- closed relation itself (closedTable = the until-nothing-changes loop)
     let n ← n.toNat?
     let es ← parseEdges edges
     let t := closedTable n es
@@ -37,6 +140,45 @@ def handle (op : String) (args : List String) : Option String :=
       if d a b then some (toString a ++ "-" ++ toString b) else none
     pure ("cycle=" ++ boolStr (hasCycle n d) ++ " trans=" ++ boolStr (transOn (List.range n) d) ++ " " ++
       (if pairs.isEmpty then "." else ",".intercalate pairs))
+  | "fmtexp", [p, e] => do
+    -- FormatExp(e, prefix)
+    let p ← bytesOfHex p
+    let e ← decode e
+    pure (hexOfBytes (Martian.FormatExp.fmt p e))
+  | "parseexp", [s] => do
+    -- Parser.ParseValExp(src): the AST or `none`
+    let b ← bytesOfHex s
+    match Martian.FormatExp.parseValExp b with
+    | some e => pure ("some " ++ encode e)
+    | none => pure "none"
+  | "normexp", [e] => do
+    let e ← decode e
+    pure (encode (Martian.FormatExp.norm e))
+  | "wfexp", [e] => do
+    -- the hypothesis of the round-trip theorems; is it a val_exp (not a reference)?
+    let e ← decode e
+    pure ("wf=" ++ boolStr (Martian.FormatExp.wf e) ++ " val=" ++ boolStr (Martian.FormatExp.isVal e))
+  | "lexexp", [s] => do
+    let b ← bytesOfHex s
+    match Martian.FormatExp.lexAll b with
+    | some ts => pure ("some " ++ toString ts.length)
+    | none => pure "none"
+  | "fmtcall", [c] => do
+    -- CallStm.format(printer, "")
+    let c ← decCall c
+    pure (hexOfBytes (Martian.FormatCall.fmtCall c))
+  | "parsecall", [s] => do
+    -- call_stm on the source: the AST or `none`
+    let b ← bytesOfHex s
+    match Martian.FormatCall.parseCall b with
+    | some c => pure ("some " ++ encCall c)
+    | none => pure "none"
+  | "wfcall", [c] => do
+    let c ← decCall c
+    pure ("wf=" ++ boolStr (Martian.FormatCall.wfCall c))
+  | "normcall", [c] => do
+    let c ← decCall c
+    pure (encCall (Martian.FormatCall.normCall c))
   | _, _ => none
 
 end Driver.C09
